@@ -98,6 +98,20 @@ func (o *Options) SetFormatOptions(key, opts interface{}) {
 // another writer.
 func (o *Options) copy() *Options {
 	no := *o
+	// The nested option structs are copied too, so that editing the options
+	// of one writer in place never reaches the defaults or another writer.
+	if o.RenderOptions != nil {
+		ro := *o.RenderOptions
+		no.RenderOptions = &ro
+	}
+	if o.SerializeOptions != nil {
+		so := *o.SerializeOptions
+		no.SerializeOptions = &so
+	}
+	if o.StoreOptions != nil {
+		sto := *o.StoreOptions
+		no.StoreOptions = &sto
+	}
 	no.formatOptions = map[string]interface{}{}
 	for k, v := range o.formatOptions {
 		no.formatOptions[k] = v
